@@ -203,3 +203,11 @@ META["C28"] = dict(
          "checker requires identical output digests.",
     note="Above 256 rows only 48 rows per matrix are compared with the reference; digests extend the serial result to parallel runs.",
 )
+META["C06"] = dict(
+    technique="offline log checker over proof digests emitted by separate builds (serial / async / concurrent) and thread counts + TSan",
+    text="The same instances are proved by separately compiled binaries and at several RAYON_NUM_THREADS values; each run "
+         "emits a log of digests; the checker joins the logs by case and requires byte-identical context, commitments and "
+         "out-of-domain frame everywhere and byte-identical proofs whenever the nonce is the same. Sizes straddle every "
+         "parallelism threshold; TSan watches the concurrent prover for data races.",
+    note="A schedule-dependent divergence that needs a rarer interleaving than the repeated runs produce is out of reach.",
+)
